@@ -461,6 +461,17 @@ theorem widthE (call : Ctx) (hc : CallWF call) : (e : Expr) → ∀ (benv : BEnv
           simp only [Option.some.injEq, Prod.mk.injEq] at h; obtain ⟨rfl, rfl, _, rfl⟩ := h
           exact ⟨rfl, (widthE call hc a _ _ _ _ _ ha hw).2⟩
         · simp at h
+      case int k =>
+        split at h
+        · rename_i k' bs' p1 env1 ha
+          split at h
+          · rename_i hk
+            subst hk
+            simp only [Option.some.injEq, Prod.mk.injEq] at h; obtain ⟨rfl, rfl, _, rfl⟩ := h
+            have iha := widthE call hc a _ _ _ _ _ ha hw
+            exact ⟨by rw [List.length_map]; exact iha.1, iha.2⟩
+          · simp at h
+        · simp at h
       all_goals (simp at h)
     | neg =>
       cases ty <;> simp only [bitExpr] at h
